@@ -551,3 +551,162 @@ func (fc *funcCFG) everyIterationPasses(fs *ast.ForStmt, event func(n ast.Node) 
 	}
 	return true
 }
+
+// ---------- lifting an obligation to the callers of a helper ----------
+
+// paramIndexOf: e is an identifier naming the i-th parameter of f (-1 otherwise; the receiver is -2).
+func paramIndexOf(f *Fn, e ast.Expr) int {
+	id, ok := ast.Unparen(e).(*ast.Ident)
+	if !ok {
+		return -1
+	}
+	obj := f.Pkg.TypesInfo.Uses[id]
+	if obj == nil {
+		return -1
+	}
+	if f.Decl.Recv != nil {
+		for _, fl := range f.Decl.Recv.List {
+			for _, n := range fl.Names {
+				if f.Pkg.TypesInfo.Defs[n] == obj {
+					return -2
+				}
+			}
+		}
+	}
+	i := 0
+	for _, fl := range f.Decl.Type.Params.List {
+		if len(fl.Names) == 0 {
+			i++
+			continue
+		}
+		for _, n := range fl.Names {
+			if f.Pkg.TypesInfo.Defs[n] == obj {
+				return i
+			}
+			i++
+		}
+	}
+	return -1
+}
+
+// paramAssigned: the parameter is assigned (or its address taken) in the body, so it no longer stands for the argument.
+func paramAssigned(f *Fn, e ast.Expr) bool {
+	id, ok := ast.Unparen(e).(*ast.Ident)
+	if !ok {
+		return true
+	}
+	obj := f.Pkg.TypesInfo.Uses[id]
+	bad := false
+	ast.Inspect(f.Decl.Body, func(n ast.Node) bool {
+		switch x := n.(type) {
+		case *ast.AssignStmt:
+			for _, l := range x.Lhs {
+				if lid, ok := ast.Unparen(l).(*ast.Ident); ok && f.Pkg.TypesInfo.Uses[lid] == obj {
+					bad = true
+				}
+			}
+		case *ast.IncDecStmt:
+			if lid, ok := ast.Unparen(x.X).(*ast.Ident); ok && f.Pkg.TypesInfo.Uses[lid] == obj {
+				bad = true
+			}
+		case *ast.UnaryExpr:
+			if lid, ok := ast.Unparen(x.X).(*ast.Ident); ok && x.Op == token.AND && f.Pkg.TypesInfo.Uses[lid] == obj {
+				bad = true
+			}
+		}
+		return true
+	})
+	return bad
+}
+
+type callSite struct {
+	g    *Fn
+	call *ast.CallExpr
+}
+
+// callersOf lists the static call sites of f in the library; ok is false when f can also be reached otherwise
+// (exported and so callable from outside, used as a value, or an interface method).
+func (c *Ctx) callersOf(f *Fn) (sites []callSite, ok bool) {
+	ok = !f.Obj.Exported()
+	for _, g := range c.libFns() {
+		ast.Inspect(g.Decl.Body, func(n ast.Node) bool {
+			switch x := n.(type) {
+			case *ast.CallExpr:
+				if cal := callee(g.Pkg, x); cal != nil && cal.Origin() == f.Obj.Origin() {
+					sites = append(sites, callSite{g, x})
+				}
+			}
+			return true
+		})
+		// uses of f that are not the function of a call: method values, function values
+		inspectWithStack(g.Decl.Body, func(n ast.Node, stack []ast.Node) bool {
+			id, isId := n.(*ast.Ident)
+			if !isId || g.Pkg.TypesInfo.Uses[id] == nil {
+				return true
+			}
+			if fo, isFn := g.Pkg.TypesInfo.Uses[id].(*types.Func); isFn && fo.Origin() == f.Obj.Origin() {
+				// find the nearest enclosing call whose Fun contains this identifier
+				asFun := false
+				for i := len(stack) - 1; i >= 0; i-- {
+					if call, isCall := stack[i].(*ast.CallExpr); isCall {
+						if call.Fun.Pos() <= id.Pos() && id.End() <= call.Fun.End() {
+							asFun = true
+						}
+						break
+					}
+				}
+				if !asFun {
+					ok = false
+				}
+			}
+			return true
+		})
+	}
+	return sites, ok
+}
+
+// argFor: the argument expression a call site passes for parameter index i (-2: the receiver expression).
+func argFor(cs callSite, i int) ast.Expr {
+	if i == -2 {
+		if sel, ok := ast.Unparen(cs.call.Fun).(*ast.SelectorExpr); ok {
+			return sel.X
+		}
+		return nil
+	}
+	if i >= 0 && i < len(cs.call.Args) && !cs.call.Ellipsis.IsValid() {
+		return cs.call.Args[i]
+	}
+	return nil
+}
+
+// rebase rewrites an access path of f that is rooted at one of f's parameters (or its receiver) into the path the
+// caller sees at the call site ("" when the root is not a parameter, or the parameter is reassigned in f).
+func rebase(f *Fn, e ast.Expr, cs callSite) string {
+	// find the root identifier
+	root := ast.Unparen(e)
+	for {
+		switch x := root.(type) {
+		case *ast.SelectorExpr:
+			root = ast.Unparen(x.X)
+			continue
+		case *ast.StarExpr:
+			root = ast.Unparen(x.X)
+			continue
+		}
+		break
+	}
+	idx := paramIndexOf(f, root)
+	if idx == -1 || paramAssigned(f, root) {
+		return ""
+	}
+	arg := argFor(cs, idx)
+	if arg == nil {
+		return ""
+	}
+	full, rootPath, argPath := accessPath(f.Pkg, e), accessPath(f.Pkg, root), accessPath(cs.g.Pkg, arg)
+	if full == "" || rootPath == "" || argPath == "" || !strings.HasPrefix(full, rootPath) {
+		return ""
+	}
+	// a pointer receiver/argument written &x or a dereference keep the same fields
+	return strings.TrimPrefix(argPath, "&") + strings.TrimPrefix(full, rootPath)
+}
